@@ -100,7 +100,7 @@ def isBinaryByte (b : UInt8) : Bool :=
 
 def startsWith (p : Bytes) (b : Bytes) : Bool := b.take p.length == p
 
-/-- the FASTQ detector of `OBIMimeTypeGuesser`: regexp `^@[^ ].*\n([^ ]+\n\+|[^ \n]*\n?$)` on the window.
+/-- the FASTQ detector of `OBIMimeTypeGuesser`: regexp `^@[^ ](.*\n([^ ]+\n\+|[^ \n]*\n?$)|[^\n\x00]*$)` on the window.
 `rest` is what follows the first line feed at an index ≥ 2. -/
 def fastqTail (rest : Bytes) : Bool :=
   -- `[^ \n]*\n?$`
@@ -116,7 +116,7 @@ def fastqDetect (raw : Bytes) : Bool :=
     if c = 32 then false
     else match t.idxOf? 10 with
       | some p => fastqTail (t.drop (p + 1))
-      | none => false
+      | none => !t.contains 0      -- third alternative `[^\n\x00]*$` (patch `C02-fastq-sniff-long-title`): no line feed, no NUL in the window
   | _ => false
 
 /-- the detectors that `OBIMimeTypeGuesser` (called for the first sequence file, BEFORE the sample sheet is
